@@ -82,6 +82,7 @@ type Outcome struct {
 	Sends     int64
 	MapRanges int
 	TopSites  []string // busiest tick sites (for no-progress verdicts)
+	Orders    []uint64 // (siteA<<32|siteB): a task at siteA was released right before a DIFFERENT task at siteB
 }
 
 // Sim is one simulated run.
@@ -98,6 +99,7 @@ type Sim struct {
 	tickHist  []int64
 	sentinel  *budgetPanic
 	mapRanges int
+	orders    []uint64
 	sends     int64
 }
 
@@ -276,6 +278,7 @@ func Run(t *testing.T, cfg Config, mainFn func(), jobs ...func()) (out Outcome) 
 	out.Tasks = len(s.tasks)
 	out.Sends = s.sends
 	out.MapRanges = s.mapRanges
+	out.Orders = s.orders
 	if s.aborted {
 		out.TopSites = s.topTickSites(4)
 	}
@@ -348,6 +351,9 @@ func (s *Sim) control(mainFn func(), jobs []func()) {
 			k = s.tape.Draw("sched", len(parked))
 		}
 		t := parked[k]
+		if n := len(s.trace); n > 0 && s.trace[n-1].Task != t.id && len(s.orders) < 4096 {
+			s.orders = append(s.orders, uint64(s.trace[n-1].Site)<<32|uint64(uint32(t.site)))
+		}
 		s.trace = append(s.trace, Step{Task: t.id, Site: t.site, Kind: t.kind, Of: len(parked)})
 		t.permit <- struct{}{}
 	}
